@@ -23,6 +23,8 @@ pub mod net {
         Refused,
         /// The connect never completes (SYN black hole).
         Hang,
+        /// The connect fails with a timeout after this long (the kernel gives up on the SYN).
+        TimeoutAfter(std::time::Duration),
     }
 
     pub type Connector = Box<dyn FnMut(&str) -> ConnectOutcome + Send>;
@@ -63,6 +65,10 @@ pub mod net {
                 ConnectOutcome::Hang => {
                     std::future::pending::<()>().await;
                     unreachable!()
+                }
+                ConnectOutcome::TimeoutAfter(d) => {
+                    tokio::time::sleep(d).await;
+                    Err(io::Error::new(io::ErrorKind::TimedOut, "connection timed out"))
                 }
             }
         }
